@@ -20,10 +20,25 @@ use happylock::rwlock::{RwLock, RwLockReadRef, RwLockWriteRef};
 use crate::vlock::{VMutex, VRw};
 
 /// payload of every leaf lock
-#[derive(Debug, Clone, PartialEq, Eq)]
+#[derive(Clone, PartialEq, Eq)]
 pub struct P {
 	pub id: u32,
 	pub ver: u32,
+}
+
+thread_local! {
+	/// how `{:?}` of a payload behaves on this thread: 0 prints, 1 returns Err, 2 panics
+	pub static P_DEBUG_MODE: std::cell::Cell<u8> = const { std::cell::Cell::new(0) };
+}
+
+impl std::fmt::Debug for P {
+	fn fmt(&self, f: &mut std::fmt::Formatter<'_>) -> std::fmt::Result {
+		match P_DEBUG_MODE.with(|m| m.get()) {
+			1 => Err(std::fmt::Error),
+			2 => std::panic::panic_any(crate::exec::UserPanic),
+			_ => write!(f, "P {{ id: {}, ver: {} }}", self.id, self.ver),
+		}
+	}
 }
 
 pub type M = Mutex<P, VMutex>;
